@@ -154,6 +154,9 @@ def run_case(ctx, i, rng):
         ctx.count("class:landmarks_share_one_initial_guess_object")
     spec = gen.trajectory_graph(rng, k, n, n_loops=n_loops, n_lm=n_lm, meas_t=mt, meas_r=mr, init_t=it, init_r=ir, cond=cond, cross=bool(rng.random() < 0.7), uturn=uturn,
                                 share_landmark_guess=share, q_signs=bool(rng.random() < 0.5))
+    if rng.random() < 0.1:
+        spec["prebind_stale"] = True  # edges arrive linked to other Vertex objects with the same ids (a ground-truth graph built first)
+        ctx.count("class:edges_prebound_to_stale_vertices")
     history = bool(i % 5 == 4)
     out = convergence_check(ctx, spec, k, tol, noise_free, n_loops, n_lm, history_rng=(rng if history else None))
     if out is None:
